@@ -58,6 +58,26 @@ func runC06(c *Ctx) {
 	c.c06NegativeDepthMeansUnlimited()
 	c.c06RefusalsBeforeChanges()
 	c.c06RawRemovalOnlyOfWhatIsEmpty()
+	// Z21: "the values returned, the error kinds and the resulting tree are those of the reference model": an operation that
+	// failed half-way says so. In everything remove, clean, move and copy reach inside the package, an error assigned to a
+	// variable is read before it is overwritten (the obligation C04/N8 = C09/A17, evaluated for the operations of C06).
+	c.rule("Z21", "in everything remove, clean, move and copy reach inside package filesystem an error assigned to a variable is read before the variable is overwritten or the function returns: a step that failed (or was cancelled) half-way is not covered by the success of the next one", 60)
+	{
+		var roots []*ssa.Function
+		for _, n := range []string{"(*VFS).RemoveWithContextAndExclusionPatterns", "(*VFS).CleanDirWithContextAndExclusionPatterns", "(*VFS).MoveWithContext", "MoveBetweenFS", "CopyBetweenFSWithExclusionRegexes", "(*VFS).CopyToDirectoryWithContext", "(*VFS).CopyToFileWithContext"} {
+			if f := c.fnOpt(fsPkgRel, n); f != nil {
+				roots = append(roots, f)
+			}
+		}
+		var fns []*ssa.Function
+		for f := range c.reachable(roots, false, inPkg(fsPkgRel)) {
+			fns = append(fns, f)
+		}
+		sortFuncs(fns)
+		for _, f := range fns {
+			c.errOverwrittenRule("Z21", f)
+		}
+	}
 	// Z19: "the values returned are those of the reference model": is-empty and clean answer for the tree they were given
 	c.rule("Z19", absentOnlyWhenAbsentText, 2)
 	c.c04AbsentOnlyWhenAbsent("Z19", func(f *ssa.Function) bool { return f.Name() == "IsEmpty" || strings.HasPrefix(f.Name(), "CleanDir") })
@@ -1602,8 +1622,8 @@ func (c *Ctx) c06RawRemovalOnlyOfWhatIsEmpty() {
 				c.ok("Z20", key, c.ipos(rem), "reached only where the path was found to be a symbolic link")
 				return
 			}
-			// the closest emptiness measurement of the same path which dominates the removal
-			var e *ssa.Call
+			// emptiness measurements of the same path
+			var es []*ssa.Call
 			allInstrs(f, func(i2 ssa.Instruction) {
 				cl, ok := i2.(*ssa.Call)
 				if !ok {
@@ -1615,18 +1635,37 @@ func (c *Ctx) c06RawRemovalOnlyOfWhatIsEmpty() {
 				if a := pathArg(cl); a == nil || !samePath(a, p) {
 					return
 				}
-				if dominates(cl, rem) && (e == nil || dominates(e, cl)) {
-					e = cl
-				}
+				es = append(es, cl)
 			})
-			if e != nil {
+			if len(es) > 0 {
+				// a value tested is 'the emptiness of the path' when everything it merges is the answer of such a measurement
+				isEmptiness := func(v ssa.Value) bool {
+					n := 0
+					for _, l := range sources(v, deriveOpts{}) {
+						cl, ok := isCallTo(l, "IsEmpty", "isDirEmpty")
+						if !ok {
+							return false
+						}
+						found := false
+						for _, e := range es {
+							if e == cl {
+								found = true
+							}
+						}
+						if !found {
+							return false
+						}
+						n++
+					}
+					return n > 0
+				}
 				prune := func(b *ssa.BasicBlock, k int) bool {
 					ifi, ok := b.Instrs[len(b.Instrs)-1].(*ssa.If)
 					if !ok {
 						return false
 					}
 					v, ts := boolTest(ifi)
-					if cl, ok := isCallTo(v, "IsEmpty", "isDirEmpty"); ok && cl == e {
+					if isEmptiness(v) {
 						return k == ts // found empty: fine
 					}
 					if cl, ok := isCallTo(v, "IsDir"); ok {
@@ -1636,9 +1675,9 @@ func (c *Ctx) c06RawRemovalOnlyOfWhatIsEmpty() {
 					}
 					return false
 				}
-				bad := pathPruned(f, e, func(ssa.Instruction) bool { return false }, func(i ssa.Instruction) bool { return i == ssa.Instruction(rem) }, prune)
-				c.check(bad == nil, "Z20", key, c.ipos(rem), "every path from the emptiness test at "+c.ipos(e)+" to the removal goes over its 'empty' side (or the 'not a directory' side)",
-					"the removal can be reached where the directory was found not empty: the in-memory backend removes the directory and leaves its content behind — it exists but no listing shows it — and the call reports success where the OS backend answers 'directory not empty'")
+				bad := pathPruned(f, nil, func(ssa.Instruction) bool { return false }, func(i ssa.Instruction) bool { return i == ssa.Instruction(rem) }, prune)
+				c.check(bad == nil, "Z20", key, c.ipos(rem), "every path to the removal goes over the 'empty' side of a test of the path's emptiness (or the 'not a directory' side)",
+					"the removal can be reached where the directory was not found empty: the in-memory backend removes the directory and leaves its content behind — it exists but no listing shows it — and the call reports success where the OS backend answers 'directory not empty'")
 				return
 			}
 			// not a directory by the callers' own test
